@@ -978,13 +978,16 @@ class FuncEnv:
                     out |= e
             elif x[0] == "cls":
                 it = self.prog.find_method(x[1], "__iter__")
-                if it is not None:
-                    rt = self.prog.return_type(it, x[1])
+                rt = self.prog.return_type(it, x[1]) if it is not None else None
+                if it is not None and not (rt and x in rt):
                     out |= self._elem(rt) if rt else UNKNOWN
                 else:
+                    # no __iter__, or an iterator class (`__iter__` returns self): the items are what __next__ returns
                     nx = self.prog.find_method(x[1], "__next__")
                     if nx is not None:
                         out |= self.prog.return_type(nx, x[1])
+                    elif it is not None:
+                        out |= UNKNOWN
                 # Mapping[K, V] base: iteration yields keys -> unknown
         return frozenset(out)
 
